@@ -174,6 +174,9 @@ let handle line =
                | "caret" -> x_native_caret | "tilde" -> x_native_same_minor | "majorx" -> x_native_same_major
                | "nginxplus" -> x_native_nginx_plus | _ -> failwith "bad shorthand") in
       "OK " ^ string_of_bool (f (n a) (n b) (n c) (n x) (n y) (n z))
+  | ["gemhelpers"; h] -> (match x_gem_helpers (unhex h) with
+                          | Ok ((b, r), c) -> "OK " ^ hex b ^ " " ^ hex r ^ " " ^ hex c
+                          | Err e -> "ERR " ^ string_of_err e)
   | ["refcmp"; cls; a; b] -> (match x_refcmp (coq_string cls) (unhex a) (unhex b) with
                              | None -> "NOREF"
                              | Some None -> "OUTSIDE"
